@@ -4,9 +4,12 @@ set -u
 patch="$1"; shift
 cd /repo && git status --short | grep -q . && { echo "repo not clean"; exit 2; }
 git -C /repo apply "$patch" || { echo "patch does not apply"; exit 2; }
+# evidence files must only ever describe runs on the unchanged tree: keep them aside
+bak=$(mktemp -d /tmp/evbak.XXXXXX); cp -a /verif/evidence/. $bak/
 for p in "$@"; do
   echo "=== $p"
   (cd /verif && VERIF_SECS=${VERIF_SECS:-55} ./check $p --tier ${TIER:-quick} 2>&1 | grep -E "^VIOLATION|^KNOWN|^MACHINERY|quick:|thorough:|^  " | head -${LINES_MAX:-9} | cut -c1-400)
 done
 git -C /repo checkout -- . 
+rm -rf /verif/evidence; mkdir -p /verif/evidence; cp -a $bak/. /verif/evidence/; rm -rf $bak
 git -C /repo status --short
